@@ -51,6 +51,7 @@ Fixpoint offenders (ts : list tool) (idx : nat) : wire :=
       ++ (if option_count_ok t then [] else [zn idx; -7; 0])
       ++ (if tool_doc_order_ok t then [] else [zn idx; -9; 0])
       ++ (if geo_ordering_ok t then [] else [zn idx; -10; 0])
+      ++ (if variant_doc_ok t then [] else [zn idx; -11; 0])
       ++ (if unknown_check_ok t then [] else [zn idx; -8; 0])
       ++ offenders r (S idx)
   end.
